@@ -172,6 +172,10 @@ def run_panic_schedule(eng, sched, alog, tag, extra_entry=True, lie=()):
                     findings.append(("mod-no-exit", "entry %d panics inside ProcessMessage but the process did not terminate (rc=%s)" % (idx, rc)))
                     break
                 if not about:
+                    if resume and "PANIC called" in out:
+                        findings.append(("mod-crash-loop", "after the restart the node crashed again while replaying its log "
+                                         "(marked entries %s): the entry that crashed it is not skipped" % mod))
+                        break
                     raise vlib.Inconclusive("child died before reaching the crashing step:\n" + out[-2000:])
                 if "PANIC called" not in out:
                     findings.append(("mod-unexpected-death", "child died, but not from the PANIC command: %s" % out[-300:]))
@@ -182,7 +186,11 @@ def run_panic_schedule(eng, sched, alog, tag, extra_entry=True, lie=()):
                 mod.append(idx)
                 resume = True
             elif died:
-                findings.append(("mod-death-after-restart", "the node died although no unmarked PANIC was applied (rc=%s): %s" % (rc, out[-400:])))
+                if resume and "PANIC called" in out and not [e for e in evs if e.get("ev") == "Restart"]:
+                    findings.append(("mod-crash-loop", "after the restart the node crashed again while replaying its log "
+                                     "(marked entries %s): the entry that crashed it is not skipped" % mod))
+                else:
+                    findings.append(("mod-death-after-restart", "the node died although no unmarked PANIC was applied (rc=%s): %s" % (rc, out[-400:])))
                 break
     finally:
         shutil.rmtree(raftdir, ignore_errors=True)
@@ -302,6 +310,17 @@ def folds_all(b):
 
 
 def run(ctx):
+    try:
+        _run(ctx)
+    except vlib.Inconclusive as ex:
+        # a machinery problem after a property violation was observed on the real code must not hide it
+        if not ctx.violations:
+            raise
+        ctx.note("inconclusive after a violation had been found: %s" % str(ex)[:500])
+        ctx.log("(later stage inconclusive: %s)" % str(ex)[:300])
+
+
+def _run(ctx):
     t0 = time.time()
     eng = F.Engine(ctx)
     ctx.log("harness built in %.1fs (repo %s)" % (time.time() - t0, vlib.REPO))
